@@ -4,7 +4,7 @@ package props
 var extraNotes4 = map[string][2]string{
 	"C08": {"rounding rule for the level reduction", "(K2) in decryptChunkData every division of the span-derived length by the per-level capacity rounds up ((x + d-1)/d), so a partially filled last reference is still counted."},
 	"C09": {"threshold rule for the pyramid walk", "(K1) GetPyramid skips the walk over intermediate chunks only for a single-chunk file (span <= ChunkSize), for no larger threshold."},
-	"C13": {"provenance rule for the counter write-back", "(P2) the value collectGarbage writes back to gcSize does not depend on any variable accumulated by the candidate-selection callback handed to gcIndex.Iterate."},
+	"C13": {"provenance, freshness and write-off rules for the counter write-back", "(P2) the value collectGarbage writes back to gcSize does not depend on any variable accumulated by the candidate-selection callback handed to gcIndex.Iterate; (Lk3) it derives from gcSize.Get() calls made with batchMu held; (G4) the branch that writes the whole counter off is guarded by the emptiness of the slice the selection callback fills."},
 	"C17": {"coverage rule of the all-bits-set test behind the fully-downloaded report", "(V1) BitVector.Equals answers true only after a counting loop from 0 to bv.len (bit form, advancing only behind Get(i)) or to bv.len/8 (byte form, advancing only behind b[j]==0xff, the tail compared under the mask 1<<(len%8)-1) has run to its end; (V2) isDownload answers the constant false or Equals of a vector read from the presence table."},
 	"C19": {"must-stage rule", "(F3) every return of a shed *InBatch method is preceded on all paths by a staging call on the batch parameter, or lies only behind a non-nil error of some call — no method decides from the currently stored value to skip the staging; (W2) every append onto Index.prefix (the filter prefix of Iterate / First / Last) starts from bytes clipped to their length, at the site or at every store of the field — the shared prefix bytes are never written."},
 	"C39": {"coverage rules", "(V1) as C17.V1; (V2) every counting loop of a BitVector method starts its counter at 0 and only advances it by one (a sufficient condition: a correct skip-ahead optimisation would be reported for review)."},
@@ -20,6 +20,10 @@ var extraNotes4 = map[string][2]string{
 	"C38": {"goroutine / loop-variable rule", "(Y1) no goroutine started inside a loop in pkg/multicast reads a variable that the loop overwrites per iteration (shared loop variable under the module's go 1.17 semantics)."},
 	"C15": {"guard rule for HasPin", "(G3) HasPin can answer true only where the state-store Get under rootPinKey(ref) returned no error."},
 	"C27": {"key/items agreement; persist-after-update pairing", "(A3) in generatePathItems the append feeding the hash and the append building the item list both run on every iteration of the loop; (F2) every assignment to Table.routes[target] outside the reload callback is followed on all paths by a store.Put of the same list under route_index_."},
+	"C02": {"accumulator rule for the intermediate span", "(H2 ext) the span accumulator of wrapFullLevel has no incoming value other than the constant 0 and accumulator + entry span, and the addition runs on every iteration."},
+	"C05": {"fresh-storage rule; low-s rule", "(W2) no append in pkg/soc starts from a SOC field or a parameter (the serialisation never writes into the caller's id / signature storage); (G4) RecoverCompact in crypto.Recover is reached only behind big(signature[32:64]).Cmp(half order) <= 0."},
+	"C06": {"every-iteration rule of the pyramid validation", "(G2 ext) the validation loop of GetChunkHashes returns to its head only from the edge where the entry's BMT hash equals its key."},
+	"C11": {"window of the in-call duplicate test; stale committed read", "(P5) put's duplicate test is containsChunk(chs[i].Address(), chs[:i]...) and the store helpers run only behind its negative answer; (B2) inside put's per-chunk loop no helper reads the data index from committed state under a key that is the same for every chunk of the call, unless the read lies behind a committed entry of another index under that key — the one site that does (setGC, the root's BinID) is an open finding."},
 	"C20": {"scan-width rule", "(K1) the byte limit of the comparison loop in Proximity / ExtendedProximity starts from a constant K with K*8 >= the function's own cap (MaxPO / ExtendedPO)."},
 }
 
